@@ -84,9 +84,7 @@ def lib_check_tx(m):
     from bitcoin.core import CheckTransaction, CheckTransactionError, ValidationError
     tx = C.lib_tx(m)
     try:
-        r = CheckTransaction(tx)
-        if r is not None:
-            return ('EXC', 'returned %r' % (r,))
+        CheckTransaction(tx)
         return ('ok',)
     except ValidationError as e:
         return ('reject', type(e).__name__)
@@ -296,9 +294,7 @@ def lib_check_block(b, spec):
     from bitcoin.core import CBlock, CheckBlock, ValidationError
     blk = CBlock.deserialize(W.encode_block(b))
     try:
-        r = CheckBlock(blk, fCheckPoW=spec['check_pow'], cur_time=CUR_TIME)
-        if r is not None:
-            return ('EXC', 'returned %r' % (r,))
+        CheckBlock(blk, fCheckPoW=spec['check_pow'], cur_time=CUR_TIME)
         return ('ok',)
     except ValidationError as e:
         return ('reject', type(e).__name__)
